@@ -391,6 +391,21 @@ def check_run(p, b, con, target, res, viol, key, exc=None):
         last = [xx for xx in hx if xx is not None][-1]
         if not np.array_equal(np.asarray(last).flatten(), x):
             viol.add("C19.returned_x_is_last_iterate", key)
+    if hx is not None and not (det and p["sigma"] == 0):
+        # noisy runs: the recorded observed value must be a value observed AT the recorded point (within the range of the observations there)
+        for k_, (xx, yy) in enumerate(zip(hx, hy)):
+            if xx is None or yy is None:
+                continue
+            xx = np.asarray(xx).flatten()
+            obs = [target.vals[i] for i, c in enumerate(target.calls) if np.array_equal(c, xx) and target.vals[i] is not None]
+            if not obs:
+                viol.add("C19.recorded_point_was_evaluated", key, iteration=k_)
+                break
+            if not (min(obs) - 1e-12 <= yy <= max(obs) + 1e-12):
+                viol.add("C19.recorded_value_observed_at_recorded_point", key, iteration=k_, yval=float(yy), observed_there=[float(o) for o in obs][:5])
+                break
+        if not any(xx is not None and np.array_equal(np.asarray(xx).flatten(), x) for xx in hx):
+            viol.add("C19.returned_x_is_a_recorded_iterate", key)
     if hfc is not None:
         f = [v for v in hfc if v is not None]
         if any(f[i + 1] < f[i] for i in range(len(f) - 1)) or (f and f[-1] > res["func_count"]):
